@@ -1,11 +1,11 @@
 CONSTANTS
     Chans = {1, 2}
     MaxCalls = 1
-    SrvBudget = 2
-    Ops = {"listen", "publish"}
-    SrvKinds = {"ack", "blocked"}
+    SrvBudget = 1
+    Ops = {"declare", "consume"}
+    SrvKinds = {"chclose", "deliver"}
     Faults = {}
-    ClientClose = TRUE
+    ClientClose = FALSE
     Bug = {}
 SPECIFICATION Spec
 INVARIANTS Pairing NothingAfterClose Released NoStuckCaller SlotsLive OneTerminal
